@@ -120,6 +120,13 @@ CHECKS = {
         "configurations, under dask's default order, TLC-chosen orders of the exported task graph and a thread pool; TLC requires pixel identity, the fill rule on every uncovered pixel (uniform across chunks), no "
         "error for disjoint rasters, and compares the in-memory result with the first-principles nearest-neighbour model.",
    ref="5/C13", note=TB + "ties (centre on a source pixel boundary) are not generated; cross-CRS through the exact tmerc family; GDAL in-memory warp is the reference named by the property"),
+ "C01": dict(
+   technique="TLA+ CRS-class algebra and pool state machine (CrsAlgebra/CrsPool) model-checked by TLC; every combining operation (spec classification table joined with introspection of the code) executed over TLC-enumerated tag/kind tuples and chains, outcomes validated by TLC",
+   text="The pool state machine feeds results of combining operations into further operations and TLC checks NoMixedLineage (and shows the counterexample for a hypothetical unchecked operation). "
+        "TLC enumerates, for every operation of the classification table that exists in the code (plus any newly introspected one, under the generic rule), all ordered tag tuples over {none, geographic, "
+        "geographic as WKT, projected, projected as WKT} x geometry kinds, n-ary operations, bounding-box and GeoBox operations, and depth-2 chains; the real operations are executed and TLC requires: "
+        "differing classes (incl. exactly one none) => a ValueError and no result; equal classes (incl. another spelling) => the same outcome and value as shapely on the raw shapes, tagged with the operands' CRS.",
+   ref="5/C01", note=TB + "shapely on the raw shapes is the oracle the property names; kind pairs shapely itself refuses are skipped in the mismatch clause"),
 }
 
 NOT_YET = "check not built yet (work in progress); see DESIGN.md"
